@@ -212,6 +212,9 @@ func c12Args(e *c12Env) []c12Arg {
 		{name: "recorded-int", src: `val("ID", 5)`, val: func(*c12Env) interface{} { return 5 }, id: "x"},
 		{name: "ints", src: "ints", val: func(*c12Env) interface{} { return []int{1, 2} }},
 		{name: "float", src: "2.5", val: func(*c12Env) interface{} { return 2.5 }},
+		// typed nils from the context are values like any other: passed on unchanged, or not assignable
+		{name: "typed-nil-pointer", src: "ntp", val: func(*c12Env) interface{} { return (*T)(nil) }},
+		{name: "nil-strings", src: "nstrs", val: func(*c12Env) interface{} { return []string(nil) }},
 	}
 }
 
@@ -427,6 +430,8 @@ func c12Call(b *core.B, s c12Sig, argIdx []int, hasBlock bool, method string) {
 	}
 	ctx.Set("tp", env.tp)
 	ctx.Set("ints", []int{1, 2})
+	ctx.Set("ntp", (*T)(nil))
+	ctx.Set("nstrs", []string(nil))
 	ctx.Set("val", func(id string, v interface{}) interface{} {
 		env.trace = append(env.trace, id)
 		return v
@@ -584,7 +589,7 @@ func c12Class(s c12Sig, args []c12Arg) string {
 func c12Run(b *core.B) {
 	sigs := c12Sigs(2)
 	b.SetExtra("signatures_in_family", len(sigs))
-	nargKinds := 9
+	nargKinds := 11
 	var shapes [][]int
 	var rec func(cur []int, n int)
 	rec = func(cur []int, n int) {
@@ -684,7 +689,7 @@ func init() {
 	core.Register(&core.Prop{
 		ID:         "C12",
 		Level:      "exploration",
-		Rule:       "helper signatures built at run time with reflect.FuncOf/MakeFunc (recording bodies): 0-2 fixed parameters over {string, int, bool, interface{}, *T, []int, float64} x trailing {none, map[string]interface{}, hctx.Map} x {none, plush.HelperContext, hctx.HelperContext} or a variadic tail {...string, ...int, ...interface{}, ...float64} x 6 result shapes ((), (T), (T,nil), (T,err), (nil error), (err)) signatures, crossed with every call of 0-3 arguments over 9 argument kinds (string, int, float, nil, hash literal, pointer variable, bool, recorded call, []int variable) with and without a block (all pairs in thorough, a stratified 1/60 sample in quick), plus 8 recording methods on struct receivers (value receiver, pointer receiver, receiver reached through a field) crossed with the same calls, plus random 3-parameter signatures and 4-argument calls. Oracle: a reference binder written from the property text predicts accept/reject and the exact received arguments; the recording body reports what arrived (values, zero values for nil, auto-supplied map/context incl. the block rendered through the context, variadic tail), the recorded argument trace, invocation count, and result handling. Non-trivial = judged (signature, call) pair.",
+		Rule:       "helper signatures built at run time with reflect.FuncOf/MakeFunc (recording bodies): 0-2 fixed parameters over {string, int, bool, interface{}, *T, []int, float64} x trailing {none, map[string]interface{}, hctx.Map} x {none, plush.HelperContext, hctx.HelperContext} or a variadic tail {...string, ...int, ...interface{}, ...float64} x 6 result shapes ((), (T), (T,nil), (T,err), (nil error), (err)) signatures, crossed with every call of 0-3 arguments over 11 argument kinds (string, int, float, nil, hash literal, pointer variable, bool, recorded call, []int variable, typed nil pointer, nil []string) with and without a block (all pairs in thorough, a stratified 1/60 sample in quick), plus 8 recording methods on struct receivers (value receiver, pointer receiver, receiver reached through a field) crossed with the same calls, plus random 3-parameter signatures and 4-argument calls. Oracle: a reference binder written from the property text predicts accept/reject and the exact received arguments; the recording body reports what arrived (values, zero values for nil, auto-supplied map/context incl. the block rendered through the context, variadic tail), the recorded argument trace, invocation count, and result handling. Non-trivial = judged (signature, call) pair.",
 		Assume:     []string{"too few non-optional arguments is not judged (the property is silent)", "assignability is Go's reflect AssignableTo, as the property words it"},
 		Batches:    batchesQT(16, 64),
 		Run:        c12Run,
